@@ -77,7 +77,7 @@ func lexemes(s string) []string {
 		case isWordByte(c) || c == ':' && i+1 < len(s) && isWordByte(s[i+1]) && s[i+1] != '/' || c == '.' && i+1 < len(s) && s[i+1] == '/':
 			j := i + 1
 			q := false // inside the ?options part of a file name
-			for j < len(s) && (isWordByte(s[j]) || s[j] == '?' || q && (s[j] == '=' || s[j] == '&') || s[j] == '.' && strings.HasPrefix(s[i:], "@@")) {
+			for j < len(s) && (isWordByte(s[j]) || s[j] == '?' || q && (s[j] == '=' || s[j] == '&') || (s[j] == '.' || s[j] == '\'' || s[j] == '"' || s[j] == '`') && strings.HasPrefix(s[i:], "@@")) {
 				q = q || s[j] == '?'
 				j++
 			}
